@@ -16,59 +16,8 @@ Qed.
 Lemma upd_user_id r n f : (forall u, alookup (key n) (r_users r) = Some u -> f u = u) -> upd_user r n f = r.
 Proof. intros H. unfold upd_user. rewrite sm_adjust_id by exact H. destruct r; reflexivity. Qed.
 
-Lemma ext_join_ident rest u : ru_ident (ext_join rest u) = ru_ident u /\ ru_host (ext_join rest u) = ru_host u /\ ru_nick (ext_join rest u) = ru_nick u.
-Proof. destruct rest as [|a [|b l]]; simpl; try (repeat split; reflexivity); destruct (streqb a [42]); repeat split. Qed.
-
-Lemma ext_join_account rest u :
-  ru_account (ext_join rest u) = match rest with a :: _ => if streqb a [42] then ru_account u else a | [] => ru_account u end.
-Proof. destruct rest as [|a [|b l]]; simpl; try reflexivity; destruct (streqb a [42]); reflexivity. Qed.
-
 Lemma set_ident_host_id u i h : ru_ident u = i -> ru_host u = h -> ru_set_ident_host u i h = u.
 Proof. intros <- <-. destruct u; reflexivity. Qed.
-Lemma set_account_id u a : ru_account u = a -> ru_set_account u a = u.
-Proof. intros <-. destruct u; reflexivity. Qed.
-
-Lemma join_user_lookup r src chan rest (W : RWf r) :
-  alookup (key (s_name src)) (r_users (ref_join r src chan rest)) =
-  Some (ext_join rest match alookup (key (s_name src)) (r_users r) with
-                      | Some u => u
-                      | None => mkRUser (s_name src) (s_ident src) (s_host src) [] [] []
-                      end).
-Proof.
-  destruct (join_ref r W src chan rest) as (_ & RU & _). change (fold (s_name src)) with (key (s_name src)) in RU.
-  rewrite RU, streqb_refl. reflexivity.
-Qed.
-
-Definition user0 (r : ref) (src : source) : ruser :=
-  match alookup (key (s_name src)) (r_users r) with
-  | Some u => u
-  | None => mkRUser (s_name src) (s_ident src) (s_host src) [] [] []
-  end.
-
-Lemma join_user_account r src chan rest (W : RWf r) u :
-  alookup (key (s_name src)) (r_users (ref_join r src chan rest)) = Some u ->
-  ru_account u = match rest with a :: _ => if streqb a [42] then ru_account (user0 r src) else a | [] => ru_account (user0 r src) end.
-Proof. intros Hu. rewrite (join_user_lookup r src chan rest W) in Hu. injection Hu as <-. apply ext_join_account. Qed.
-
-Lemma told_join_eq r src chan rest (W : RWf r) : consistent_user r src = true ->
-  match rest, alookup (key (s_name src)) (r_users r) with
-  | acct :: _, Some u => negb (streqb acct [42]) || is_nil (ru_account u)
-  | _, _ => true
-  end = true ->
-  told_join r src chan rest = ref_join r src chan rest.
-Proof.
-  intros Hcons Hstar. unfold told_join.
-  assert (E1 : tell_identity (ref_join r src chan rest) src = ref_join r src chan rest).
-  { unfold tell_identity. apply upd_user_id. intros u Hu. rewrite (join_user_lookup r src chan rest W) in Hu. injection Hu as <-.
-    destruct (ext_join_ident rest match alookup (key (s_name src)) (r_users r) with Some u => u | None => mkRUser (s_name src) (s_ident src) (s_host src) [] [] [] end) as (A & B & _).
-    apply set_ident_host_id; [rewrite A|rewrite B]; unfold consistent_user in Hcons;
-      destruct (alookup (key (s_name src)) (r_users r)) as [u0|]; try reflexivity;
-      apply andb_prop in Hcons; destruct Hcons as [H1 H2]; [apply streqb_eq, H1|apply streqb_eq, H2]. }
-  rewrite E1. destruct rest as [|acct rest']; [reflexivity|]. destruct (streqb acct [42]) eqn:Es; [|reflexivity].
-  apply upd_user_id. intros u Hu. apply set_account_id. rewrite (join_user_account r src chan _ W u Hu), Es.
-  unfold user0. destruct (alookup (key (s_name src)) (r_users r)) as [u0|]; [|reflexivity].
-  simpl in Hstar. destruct (ru_account u0); [reflexivity|discriminate].
-Qed.
 
 Lemma ensure_user_lookup r src : RWf r ->
   alookup (key (s_name src)) (r_users (ensure_user r src)) =
@@ -104,47 +53,19 @@ Qed.
 
 Lemma told_cmd_eq r e : RWf r -> cmd_ok r e = true -> told_cmd r e = ref_cmd r e.
 Proof.
-  intros W Hok. unfold told_cmd. destruct (cmdb e c_JOIN) eqn:EJ.
-  - unfold cmdb in EJ. apply streqb_eq in EJ.
-    assert (Hr : ref_cmd r e = match e_src e, e_params e with Some src, chan :: rest => ref_join r src chan rest | _, _ => r end)
-      by (unfold ref_cmd, cmdb; rewrite EJ; reduce_cmd c_JOIN; reflexivity).
-    rewrite Hr. unfold cmd_ok, cmdb in Hok. rewrite EJ in Hok. reduce_cmd_in c_JOIN Hok.
-    apply andb_prop in Hok. destruct Hok as [_ Hok].
-    destruct (e_src e) as [src|]; [|reflexivity]. destruct (e_params e) as [|chan rest]; [reflexivity|].
-    apply andb_prop in Hok. destruct Hok as [Hok Hstar]. apply andb_prop in Hok. destruct Hok as [Hok _]. apply andb_prop in Hok. destruct Hok as [_ Hcons].
-    apply told_join_eq; assumption.
-  - destruct (cmdb e c_353) eqn:EN; [|reflexivity]. unfold cmdb in EN. apply streqb_eq in EN.
-    assert (Hr : ref_cmd r e = match e_params e with _ :: _ :: chan :: _ => ref_names r chan (last_of e) | _ => r end)
-      by (unfold ref_cmd, cmdb; rewrite EN; reduce_cmd c_353; reflexivity).
-    rewrite Hr. unfold cmd_ok, cmdb in Hok. rewrite EN in Hok. reduce_cmd_in c_353 Hok.
-    apply andb_prop in Hok. destruct Hok as [_ Hok].
-    destruct (e_params e) as [|p0 [|p1 [|chan [|names [|p4 l]]]]] eqn:Ep; try discriminate.
-    apply andb_prop in Hok. destruct Hok as [Htr Hen]. unfold told_names, ref_names, last_of. rewrite Ep, Htr. simpl last.
-    apply told_names_fold_eq; assumption.
+  intros W Hok. unfold told_cmd.
+  destruct (cmdb e c_353) eqn:EN; [|reflexivity]. unfold cmdb in EN. apply streqb_eq in EN.
+  assert (Hr : ref_cmd r e = match e_params e with _ :: _ :: chan :: _ => ref_names r chan (last_of e) | _ => r end)
+    by (unfold ref_cmd, cmdb; rewrite EN; reduce_cmd c_353; reflexivity).
+  rewrite Hr. unfold cmd_ok, cmdb in Hok. rewrite EN in Hok. reduce_cmd_in c_353 Hok.
+  apply andb_prop in Hok. destruct Hok as [_ Hok].
+  destruct (e_params e) as [|p0 [|p1 [|chan [|names [|p4 l]]]]] eqn:Ep; try discriminate.
+  apply andb_prop in Hok. destruct Hok as [Htr Hen]. unfold told_names, ref_names, last_of. rewrite Ep, Htr. simpl last.
+  apply told_names_fold_eq; assumption.
 Qed.
 
 Lemma told_apply_eq r e : RWf r -> conformant r e = true -> told_apply r e = ref_apply r e.
-Proof.
-  intros W Hc. unfold conformant in Hc. apply andb_prop in Hc. destruct Hc as [Htag Hok].
-  unfold told_apply, ref_apply. rewrite (told_cmd_eq _ e (rwf_tag r e W) Hok).
-  destruct (cmdb e c_JOIN) eqn:EJ; [|reflexivity].
-  unfold tag_ok in Htag. rewrite EJ in Htag. unfold cmdb in EJ. apply streqb_eq in EJ.
-  unfold ref_tag at 1. destruct (e_src e) as [src|] eqn:Es; [|reflexivity]. destruct (e_account_tag e) as [a|] eqn:Ea; [|reflexivity].
-  apply andb_prop in Htag. destruct Htag as [Hna Htag]. apply negb_true_iff in Hna.
-  assert (Hr : ref_cmd (ref_tag r e) e = match e_params e with chan :: rest => ref_join (ref_tag r e) src chan rest | _ => ref_tag r e end).
-  { unfold ref_cmd, cmdb. rewrite EJ, Es. reduce_cmd c_JOIN. reflexivity. }
-  rewrite Hr. destruct (e_params e) as [|chan rest] eqn:Ep.
-  - (* no parameters: the sender is tracked and has just been told to have account a *)
-    apply upd_user_id. intros u Hu. unfold ref_tag in Hu. rewrite Es, Ea in Hu. cbn [upd_user r_users r_set_users] in Hu.
-    rewrite alookup_sm_adjust, streqb_refl in Hu. destruct (alookup (key (s_name src)) (r_users r)) as [u0|]; [|discriminate].
-    simpl in Hu. injection Hu as <-. destruct u0; reflexivity.
-  - apply upd_user_id. intros u Hu. apply set_account_id. rewrite (join_user_account _ src chan rest (rwf_tag r e W) u Hu).
-    destruct rest as [|acct rest'].
-    + (* no extended-join: tracked before, tagged before *)
-      unfold tracked_user in Htag. unfold user0, ref_tag. rewrite Es, Ea. cbn [upd_user r_users r_set_users].
-      rewrite alookup_sm_adjust, streqb_refl. destruct (alookup (key (s_name src)) (r_users r)) as [u0|]; [reflexivity|discriminate].
-    + apply streqb_eq in Htag. subst acct. rewrite Hna. reflexivity.
-Qed.
+Proof. intros W Hc. unfold told_apply, ref_apply. apply told_cmd_eq; [apply rwf_tag, W|exact Hc]. Qed.
 
 Lemma told_step_eq r e : RWf r -> conformant r e = true -> told_step r e = ref_step r e.
 Proof. intros W Hc. unfold told_step, ref_step. rewrite told_apply_eq by assumption. reflexivity. Qed.
